@@ -278,6 +278,8 @@ let c16_sub id shard thr prefix steps =
 (* ---- C17 begin ---- notification stream (Db/NotifStream.v); grammar in harness/cmd/db/c17_notif.go and harness/cmd/notif/main.go
      nseq <id> <shard> <thr> <op>;...    the ops of "seq" plus
         X:<now>:<retention>        one trimming round                       -> trimmed | nothing | err
+        XW:<now>:<retention>:<offset>:<ts>:<puts>:<dels>:<ranges>   the round, with the request committing while it runs
+                                                                            -> <trimmed|nothing|err>|<W result>
         Q:<from>                   dispatch loop on the quiescent DB         -> <batch>,...|wait:<o>  (spin:<o> | err:<kind> | fuel)
         GN:<start|n>:<qc>          one GetNotifications call on the quiescent DB (qc = the leader's commit offset)
                                    -> <batch>,...  (dummy batch first when there is no start offset) | err:<kind>
@@ -302,6 +304,16 @@ let c17_nseq id shard thr ops =
     | ["X"; now; ret] ->
       (match M.trim !st (mz_of_string now) (mz_of_string ret) with
        | M.TrNothing -> "nothing" | M.TrErr _ -> "err" | M.TrTrimmed (_, st') -> st := st'; "trimmed")
+    | ["XW"; now; ret; off; ts; puts; dels; ranges] ->
+      (* the request commits while the round runs: the round decides on the state it found (first/last, timestamps are read
+         before), its range tombstone [first, trimOffset+1) cannot reach the new offset, so: the round, then the request *)
+      let xr = (match M.trim !st (mz_of_string now) (mz_of_string ret) with
+        | M.TrNothing -> "nothing" | M.TrErr _ -> "err" | M.TrTrimmed (_, st') -> st := st'; "trimmed") in
+      let req = { M.w_puts = List.map put_of (list_of '|' puts); M.w_dels = List.map del_of (list_of '|' dels);
+                  M.w_ranges = List.map range_of (list_of '|' ranges) } in
+      log := (req, mz_of_string off, n_of_string ts) :: !log;
+      let (st', r) = run_op false cfg !st (String.concat ":" ["W"; off; ts; puts; dels; ranges]) in
+      st := st'; xr ^ "|" ^ r
     | ["Q"; from] -> c17_stream_s (M.dispatch (nat_of_int 1000) !st (mz_of_string from))
     | ["GN"; start; qc] ->
       (match M.serve cfg !st (mz_of_string qc) (opt_z start) with
